@@ -27,6 +27,7 @@ pub enum Obs {
     Num(u64),
     Err,
     Na,
+    Panic,
 }
 
 pub const KINDS: [&str; 4] = ["reader-zx", "reader-strict", "slice", "vec"];
@@ -127,11 +128,24 @@ pub fn alphabet(len_now: usize) -> Vec<Op> {
         a.push(Op::SetPos(p));
     }
     a.push(Op::SetPos(1 << 40));
+    // far positions: high bits set, low bits small (a bounds check that loses high bits would accept them)
+    for hi in [1u64 << 63, 1 << 62, (1 << 61) + (1 << 60), 0xA000_0000_0000_0000, 1 << 60, 1 << 59, 1 << 48] {
+        for lo in 0..=(len_now as u64 + 1) {
+            a.push(Op::SetPos(hi + lo));
+        }
+    }
     a
 }
 
-/// Execute a history on the real object. Returns observations, final contents, Debug key.
+/// Execute a history on the real object (a panic inside the library becomes an observation).
 pub fn run_real(kind: &str, wbits: usize, borrowed: bool, init: &[u128], ops: &[Op]) -> (Vec<Obs>, Vec<u128>, String) {
+    match std::panic::catch_unwind(|| run_real_inner(kind, wbits, borrowed, init, ops)) {
+        Ok(x) => x,
+        Err(_) => (vec![Obs::Panic; ops.len().max(1)], vec![], "<panicked>".into()),
+    }
+}
+
+fn run_real_inner(kind: &str, wbits: usize, borrowed: bool, init: &[u128], ops: &[Op]) -> (Vec<Obs>, Vec<u128>, String) {
     macro_rules! drive {
         ($obj:expr, $W:ty, $can_write:tt, $has_len:tt) => {{
             let mut o = $obj;
@@ -428,11 +442,44 @@ pub fn c13(ctx: &Ctx) -> (CheckMeta, Outcome) {
             }
         }
     }
-    let out = run_all(tasks, threads());
+    let mut out = run_all(tasks, threads());
+    // one long history: a zero-extended reader keeps yielding zeros (and counting) far beyond the end
+    if crate::pool::is_primary() {
+        let n: usize = if ctx.thorough { 5_000_000 } else { 300_000 };
+        for wbits in [8usize, 64, 128] {
+            for borrowed in [false, true] {
+                let ops: Vec<Op> = (0..n).map(|_| Op::Read).chain([Op::Pos]).collect();
+                let (obs, fin, _) = run_real("reader-zx", wbits, borrowed, &[1, 0], &ops);
+                out.cov.transitions += n as u64;
+                let bad = obs.iter().take(n).enumerate().find(|(i, o)| **o != Obs::Word(if *i == 0 { 1 } else { 0 }));
+                if let Some((i, o)) = bad {
+                    out.violations.push(Violation {
+                        property: "C13".into(),
+                        system: "memwords".into(),
+                        config: format!("reader-zx/w{}/long-run", wbits),
+                        op_class: "read".into(),
+                        symptom: "value".into(),
+                        detail: format!("read #{} beyond the end returned {:?}", i, o),
+                        replay: json!({"kind": "none"}),
+                    });
+                } else if obs[n] != Obs::Num(n as u64) || fin != vec![1, 0] {
+                    out.violations.push(Violation {
+                        property: "C13".into(),
+                        system: "memwords".into(),
+                        config: format!("reader-zx/w{}/long-run", wbits),
+                        op_class: "pos".into(),
+                        symptom: "position".into(),
+                        detail: format!("after {} reads word_pos is {:?}", n, obs[n]),
+                        replay: json!({"kind": "none"}),
+                    });
+                }
+            }
+        }
+    }
     let meta = CheckMeta {
         property: "C13".into(),
         level: "model_checking".into(),
-        rule: "explicit-state BFS to the fixpoint over the REAL objects (MemWordReader zero-extended and strict, MemWordWriterSlice, MemWordWriterVec; word types u8..u128; owned and borrowed storage), rebuilt by replaying the shortest history; initial arrays: every array of length 0..=3 (thorough 0..=4) over the letters {0, 1, MAX}; operations read_word, write_word(letter), word_pos, set_word_pos(0..=len+2 and 2^40), len; vector growth capped at 5 words and zero-extended reads at len+3 to close the space; every return value, the final contents (into_inner / the borrowed storage) and the cursor (word_pos) after every transition vs a Vec+cursor model (errors leave the cursor unchanged); the same transition system is run under stateright's BFS checker with real objects rebuilt from state snapshots and the unique state counts of the two engines must agree".into(),
+        rule: "explicit-state BFS to the fixpoint over the REAL objects (MemWordReader zero-extended and strict, MemWordWriterSlice, MemWordWriterVec; word types u8..u128; owned and borrowed storage), rebuilt by replaying the shortest history; initial arrays: every array of length 0..=3 (thorough 0..=4) over the letters {0, 1, MAX}; operations read_word, write_word(letter), word_pos, set_word_pos(0..=len+2, 2^40 and 7 far positions with high bits set + 0..=len+1), len; one long history of 300 000 (thorough 5 000 000) reads past the end of the zero-extended reader; vector growth capped at 5 words and zero-extended reads at len+3 to close the space; every return value, the final contents (into_inner / the borrowed storage) and the cursor (word_pos) after every transition vs a Vec+cursor model (errors leave the cursor unchanged); the same transition system is run under stateright's BFS checker with real objects rebuilt from state snapshots and the unique state counts of the two engines must agree".into(),
         assumptions: vec!["cursor values at usize::MAX are outside the alphabet (as in the library's own fuzz harness)".into()],
     };
     (meta, out)
